@@ -1766,6 +1766,45 @@ Qed.
 
 End OneStep4b.
 
+Lemma INV4b_init : INV4b_ ginit.
+Proof.
+  unfold INV4b_. split; [|split; [|split; [|split; [|split; [|split; [|split; [|split; [|split; [|split]]]]]]]]].
+  - intros q k id s F. cbn in F. discriminate.
+  - intros q l tg F. cbn in F. discriminate.
+  - intros q tg d TL. exists []. cbn. split; [constructor|]. split; [reflexivity|]. split; [intros l []|]. intros l F. discriminate.
+  - intros q dst x [].
+  - intros q dst x [].
+  - intros l q tg F. cbn in F. discriminate.
+  - intros q dst x [].
+  - intros l q a [].
+  - intros q l tg F. cbn in F. discriminate.
+  - intros q tg D. cbn in D. congruence.
+  - split; [|split].
+    + intros q w s v [].
+    + intros q w s [].
+    + intros l dst x [].
+Qed.
+
+Definition ALL (g : gst) : Prop := INV g /\ INV2 g /\ INV3 g /\ INV4a g /\ INV4b_ g.
+
+Lemma ALL_step : forall g e, noswitch e = true -> ALL g -> ALL (gstep g e).
+Proof.
+  intros g e NSe (I1 & I2 & I3 & I4 & I5).
+  pose proof (INV_step g e I1) as I1'. pose proof (INV2_step g e I1 I2) as I2'. pose proof (INV3_step g e I1 I3) as I3'.
+  pose proof (INV4a_step g e NSe I4) as I4'.
+  unfold ALL. split; [exact I1'|]. split; [exact I2'|]. split; [exact I3'|]. split; [exact I4'|].
+  destruct (gstep_cases4 g e NSe) as [E|(p & st' & out & r & offer & Hp & Q & Q2 & Q3 & Q4 & C1 & C3 & DR & BC & CR & E1 & E2 & E3)].
+  - rewrite E. exact I5.
+  - eapply INV4b_onestep; eauto.
+Qed.
+
+Theorem ALL_run : forall es, forallb noswitch es = true -> ALL (run es).
+Proof.
+  apply grun_ind_ns.
+  - unfold ALL. split; [exact INV_init|]. split; [exact INV2_init|]. split; [exact INV3_init|]. split; [exact INV4a_init|exact INV4b_init].
+  - exact ALL_step.
+Qed.
+
 (* ---- the full liveness clause of C14, as a statement (NOT proved; totality_digest above is the part that is) -------- *)
 Definition kind_of (a : Z) : fkind :=
   if a =? 1 then FSend else if a =? 2 then FEcho else if a =? 3 then FReady else if a =? 4 then FRequest else FAnswer.
